@@ -35,6 +35,9 @@ def run(ctx, anchors=None):
     ctx.rule("R14.4", "a failed decode does not fall through into an unchecked use of the result")
     # ---- inline dispatcher arms
     de = fb.fn("Value::do_exec")
+
+    from . import common as _cm
+    _cm.require_names(de, ["fun"], "R14.1")
     arms = {}
     for n in de.nodes():
         if n["k"] != "if":
@@ -72,6 +75,7 @@ def run(ctx, anchors=None):
                  "`tf %s` performs %s but the inline form %s(...) performs %s" % (name, cmd_ops, inl, inl_ops))
     # ---- R14.2
     dp = fb.fn("Value::do_prefix_compact_size")
+    _cm.require_names(dp, ["data_len", "prefix"], "R14.2")
 
     def dlw_width(arm):
         for x in walk(arm):
